@@ -374,6 +374,11 @@ func invRunCase(id string, in bhInput, gen *bhGenerator) Case {
 	for t := range xtags {
 		c.Tags = append(c.Tags, t)
 	}
+	if f := in.Gen.Fee; f == nil {
+		c.Tags = append(c.Tags, "fee-regime:default")
+	} else {
+		c.Tags = append(c.Tags, "fee-regime:given", fmt.Sprintf("fee-regime:block-max-gas-finite=%v", f.MaxGas >= 0))
+	}
 	if len(in.Gen.MinDep) > 0 {
 		c.Tags = append(c.Tags, "gov-min-deposit:several-denominations")
 	}
